@@ -200,22 +200,24 @@ type cob struct {
 }
 
 type analyzer struct {
-	p        *Prog
-	prog     *ssa.Program
-	cursorT  *types.Named
-	posIdx   int
-	inIdx    int
-	next     *ssa.Function
-	back     *ssa.Function
-	methods  []*ssa.Function
-	sums     map[*ssa.Function]*summary
-	obs      map[string]*cob
-	order    []string
-	report   bool
-	callw    map[[2]*ssa.Function]int // min net-since-entry at call sites caller->callee
-	ords     map[ssa.Instruction]int
-	loopOrd  map[*ssa.BasicBlock]int
-	nextUses map[ssa.Instruction]bool // NEXT calls whose result is inspected
+	p       *Prog
+	prog    *ssa.Program
+	cursorT *types.Named
+	posIdx  int
+	inIdx   int
+	next    *ssa.Function
+	back    *ssa.Function
+	methods []*ssa.Function
+	sums    map[*ssa.Function]*summary
+	// cursor methods that are not readers themselves and are analysed as part of their callers (inlined views)
+	inlinedHelpers map[*ssa.Function]bool
+	obs            map[string]*cob
+	order          []string
+	report         bool
+	callw          map[[2]*ssa.Function]int // min net-since-entry at call sites caller->callee
+	ords           map[ssa.Instruction]int
+	loopOrd        map[*ssa.BasicBlock]int
+	nextUses       map[ssa.Instruction]bool // NEXT calls whose result is inspected
 }
 
 // rec records the verdict of an obligation; evaluated several times (joins), it is discharged only if every
@@ -960,15 +962,50 @@ func RunCursor(p *Prog, pkgpath string) *CursorResult {
 		return res
 	}
 	sort.Slice(a.methods, func(i, j int) bool { return a.methods[i].Name() < a.methods[j].Name() })
+	// Readers are analysed in their inlined views (inline.go): a cursor method that is not itself a reader in the sense
+	// of the rules - it returns nothing, or a tuple other than (value, error) - is a piece of its callers factored out
+	// (readComment(), readMemberHead() (doc, name string), ...) and is analysed as part of them. Readers proper (one
+	// result, or (node, error)) and the two primitives stay calls and are summarised.
+	regular := func(f *ssa.Function) bool {
+		res := f.Signature.Results()
+		return res.Len() == 1 || res.Len() == 2 && isErrorType(res.At(1).Type())
+	}
+	keep := func(callee *ssa.Function) bool {
+		return callee == a.next || callee == a.back || !a.isCursorMethod(callee) || regular(callee)
+	}
+	var views []*ssa.Function
+	a.inlinedHelpers = map[*ssa.Function]bool{}
+	for _, f := range a.methods {
+		if !regular(f) {
+			// still analysed on its own when something keeps calling it (recursion, conditional defers)
+			called := false
+			for _, g := range a.methods {
+				if g != f {
+					for _, cs := range callsIn(p.Inlined(g, keep), false) {
+						if cs.Common.StaticCallee() == f {
+							called = true
+						}
+					}
+				}
+			}
+			if !called {
+				a.inlinedHelpers[f] = true
+				continue
+			}
+		}
+		views = append(views, p.Inlined(f, keep))
+	}
+	a.methods = views
 	for round := 0; round < 20; round++ {
 		changed := false
 		for _, f := range a.methods {
 			s := a.analyze(f)
-			old := a.sums[f]
+			old := a.sums[origFn(f)]
 			if old == nil || *old != *s {
 				changed = true
 			}
 			a.sums[f] = s
+			a.sums[origFn(f)] = s
 		}
 		res.Rounds = round + 1
 		if !changed {
